@@ -82,6 +82,10 @@ def _run_once(case, preempt):
             mains = s.workers[n:]
             inner = I.find_instance(srv, socketserver.BaseServer)
             running = I.find_named(srv, "running", kind=bool)
+            if running is I.MISSING:
+                # the object's only boolean attribute is its running flag, whatever it is called
+                bools = [v for v in I.attrs_of(srv).values() if isinstance(v, bool)]
+                running = bools[0] if len(bools) == 1 else I.MISSING
             return {"running": None if running is I.MISSING else bool(running), "server_obj": inner is not None,
                     "listening": inner is not None and is_open(inner),
                     "thread_ref": I.find_instance(srv, sched.CoopThread) is not None,
